@@ -32,14 +32,21 @@ def generate(tier, rng):
     k = 0
     grids = ["unit", "const4", "uneven_p2", "uneven_alt"] + (["uneven"] if True else [])
     extras = [[], ["r"], ["r", "g"], ["r", "h"]]     # r and h have equal lengths: a parameter over one of them must not be applied along the other
-    for gname in grids:
-        grid = c03.GRIDS[gname]
+    # (fine64: six steps of 1/64 year at the calendar year 2000 with lifetimes of a few weeks; its "shift" moves the items to 0 .. 5/64,
+    #  all of it exactly representable: where on the time axis a grid lies must not matter, however fine it is)
+    FINE = [2000 + i / 64 for i in range(6)]
+    for gname in grids + ["fine64"]:
+        grid = FINE if gname == "fine64" else c03.GRIDS[gname]
         ex = gname in c03.EXACT_GRIDS
         for extra in extras:
             if not ex and len(extra) == 2 and tier == "quick":
                 continue
+            if gname == "fine64" and len(extra) > 1:
+                continue
             N = int(np.prod(sd.shape_of(grid, extra)))
             lts = c03.lifetimes(rng, grid, extra, k) if ex else [dict(kind="lognormal", mean=9, std=4), dict(kind="weibull", shape=2.0, scale=8)]
+            if gname == "fine64":
+                lts = [dict(kind="weibull", shape=1.5, scale=0.05), dict(kind="normal", mean=0.06, std=0.02, n_pts=3), dict(kind="lognormal", mean=0.04, std=0.03, inflow_at="end")]
             if ex and len(extra) == 2:
                 # parameters over the FIRST extra dimension only, and over (second, first) without time
                 l0, l1 = extra
@@ -49,11 +56,12 @@ def generate(tier, rng):
             for lt in lts:
                 for cls, solver in (("idsm", None), ("sdsm", "manual"), ("sdsm", "lapack")):
                     k += 1
-                    if tier == "quick" and (k % 3) and len(extra) == 2:
-                        continue
+                    if tier == "quick" and ((k + k // 3) % 3) and len(extra) == 2:
+                        continue      # (one of the three model kinds per lifetime, a different one each time)
                     # every third configuration holds its (whole-number) drivers as int64 arrays: the results are the same
                     # real numbers as for the float array with the same values
-                    base = dict(cls=cls, grid=grid, gname=gname, extra=extra, lifetime=lt, driver=[0] * N, int_dtype=(k % 3 == 0))
+                    base = dict(cls=cls, grid=grid, gname=gname, extra=extra, lifetime=lt, driver=[0] * N, int_dtype=(k % 3 == 0),
+                                layout=("F" if k % 2 else "C"))        # and every second one stores them in Fortran order (a transposed view)
                     if solver:
                         base["solver"] = solver
                     d1 = [rng.randint(0, 6) for _ in range(N)]
@@ -65,7 +73,7 @@ def generate(tier, rng):
                         d2 = [str(Fraction(v, 2 ** 40)) for v in d2]
                         tiny = True
                     cases.append(dict(stream="exact" if ex else "tolerance", coq=ex, tiny=tiny, gname=gname, extra=extra, base=base,
-                                      d1=d1, d2=d2, a=rng.choice([2, -1, 3]), b=rng.choice([1, 2, -2]), shift=rng.choice([37, -12, 100]),
+                                      d1=d1, d2=d2, a=rng.choice([2, -1, 3]), b=rng.choice([1, 2, -2]), shift=(-2000 if gname == "fine64" else rng.choice([37, -12, 100])),
                                       tails=[[rng.randint(0, 6) for _ in range(N)] for _ in range(len(grid))]))
     return cases
 
